@@ -60,8 +60,22 @@ func main() {
 		return nil
 	})
 	report := map[string]any{}
+	// explicit replacements (mutants, candidate fixes): applied first so that import rewriting
+	// below operates on the replacement's source, not on the original file
+	for _, r := range replaces {
+		rel, f, ok := strings.Cut(r, "=")
+		if !ok {
+			fmt.Fprintln(os.Stderr, "bad -replace", r)
+			os.Exit(2)
+		}
+		if !filepath.IsAbs(rel) {
+			rel = filepath.Join(*repo, rel)
+		}
+		repl[rel] = f
+	}
 	for _, rw := range rewrites {
 		pkg, imps, _ := strings.Cut(rw, "=")
+		_ = imps
 		want := map[string]bool{"sync": true, "sync/atomic": true}
 		if imps != "" {
 			want = map[string]bool{}
@@ -84,8 +98,11 @@ func main() {
 				continue
 			}
 			src := filepath.Join(dir, n)
-			// a hook-added file in the same package is rewritten too
-			b, changed, stats, err := rewriteFile(src, want, *gostmts)
+			from := src
+			if r, ok := repl[src]; ok {
+				from = r // mutant / candidate fix replaces this file: rewrite the replacement
+			}
+			b, changed, stats, err := rewriteFile(from, want, *gostmts)
 			if err != nil {
 				fmt.Fprintf(os.Stderr, "overlay: %s: %v\n", src, err)
 				os.Exit(2)
@@ -101,17 +118,6 @@ func main() {
 			repl[src] = dst
 			report[src] = stats
 		}
-	}
-	for _, r := range replaces {
-		rel, f, ok := strings.Cut(r, "=")
-		if !ok {
-			fmt.Fprintln(os.Stderr, "bad -replace", r)
-			os.Exit(2)
-		}
-		if !filepath.IsAbs(rel) {
-			rel = filepath.Join(*repo, rel)
-		}
-		repl[rel] = f
 	}
 	b, _ := json.MarshalIndent(map[string]any{"Replace": repl}, "", " ")
 	os.WriteFile(filepath.Join(*out, "overlay.json"), b, 0o644)
